@@ -74,7 +74,7 @@ fn script_template_predicates() {
 }
 
 //@ harness: script_is_v1plus_p2witprog class=F tier=quick
-//@ clause: is_v1plus_p2witprog holds exactly for witness programs of version 1..=16 with a 2..=40-byte program (all byte strings of length 0..=45). EXPECTED TO FAIL on the unfixed tree: DESIGN section 6 D7 (no lower bound on the push)
+//@ clause: is_v1plus_p2witprog holds exactly for witness programs of version 1..=16 with a 2..=40-byte program (all byte strings of length 0..=45). Regression check for DESIGN section 6 D7 (the push had no lower bound; failed before the fix with `OP_16 <1 byte>`)
 #[kani::proof]
 fn script_is_v1plus_p2witprog() {
     let mut b: [u8; N] = kani::any();
@@ -132,7 +132,7 @@ fn spec_address_template(b: &[u8; N], len: usize) -> bool {
 }
 
 //@ harness: address_from_script_iff_template class=F tier=quick
-//@ clause: Address::from_script(script, None, params) is Some exactly for p2pkh, p2sh, v0 witness programs of 20/32 bytes and v1..v16 witness programs of 2..=40 bytes (all byte strings of length 0..=45); the payload carries exactly the hash / version / program bytes of the script (so that, with the address_script_pubkey_* harnesses, script_pubkey() of that address is the original script). EXPECTED TO FAIL on the unfixed tree: DESIGN section 6 D7 (`OP_1 OP_0`, `OP_1 <1 byte>` are accepted)
+//@ clause: Address::from_script(script, None, params) is Some exactly for p2pkh, p2sh, v0 witness programs of 20/32 bytes and v1..v16 witness programs of 2..=40 bytes (all byte strings of length 0..=45); the payload carries exactly the hash / version / program bytes of the script (so that, with the address_script_pubkey_* harnesses, script_pubkey() of that address is the original script). Regression check for DESIGN section 6 D7 (before the fix `OP_n OP_0` and `OP_n <1 byte>`, e.g. bytes 60 01 14, yielded an address)
 #[kani::proof]
 fn address_from_script_iff_template() {
     let mut b: [u8; N] = kani::any();
@@ -268,10 +268,10 @@ spk_witness!(address_script_pubkey_wit_l02, 2, 4);
 //@ harness: address_script_pubkey_wit_l20 class=F tier=quick
 //@ clause: same, every 20-byte program (p2wpkh and v1+)
 spk_witness!(address_script_pubkey_wit_l20, 20, 22);
-//@ harness: address_script_pubkey_wit_l32 class=F tier=quick
+//@ harness: address_script_pubkey_wit_l32 class=F tier=thorough
 //@ clause: same, every 32-byte program (p2wsh, p2tr and v2+)
 spk_witness!(address_script_pubkey_wit_l32, 32, 34);
-//@ harness: address_script_pubkey_wit_l40 class=F tier=quick
+//@ harness: address_script_pubkey_wit_l40 class=F tier=thorough
 //@ clause: same, every 40-byte program (longest)
 spk_witness!(address_script_pubkey_wit_l40, 40, 42);
 
